@@ -8,7 +8,7 @@ import time
 
 import z3
 
-QUICK_TIMEOUT_MS = int(os.environ.get("PYVC_TIMEOUT_MS", "10000"))
+QUICK_TIMEOUT_MS = int(os.environ.get("PYVC_TIMEOUT_MS", "30000"))
 
 
 EXTRA_REFUTERS: list = []
@@ -77,7 +77,8 @@ def check_vc(pc, goal, timeout_ms=None, want_model=True, use_cvc5=True) -> VCRes
             dt2 = time.time() - t1
             if r2 == "unsat":
                 return VCResult("proved", "cvc5", dt + dt2, smt_size=len(smt2))
-            if r2 == "sat":
+            if r2 == "sat" and "forall" not in smt2 and "exists" not in smt2:
+                # (with quantifiers a `sat` of cvc5 is not trusted as a refutation: stays unknown)
                 return VCResult("refuted", "cvc5", dt + dt2, reason="cvc5 sat (no model decoded)", smt_size=len(smt2))
         except Exception as e:  # noqa
             reason += f"; cvc5 fallback failed: {e}"
